@@ -40,6 +40,7 @@ def spec_evaluator(world, label):
     fv._fresh_ids, fv._entry_ids, fv._id_keep = set(), set(), []
     fv._owner_tag, fv._entry_term_cache, fv._binder_cache, fv._lkind_tag = {}, {}, {}, {}
     fv._revealed = {}
+    fv._newer_havoc, fv._fresh_order = {}, {}
     fv._soft_ids, fv.soft_mode = set(), False
     fv._branch_ids = set()
     fv.proving = False
